@@ -158,16 +158,41 @@ func runC12(c *Ctx) {
 				bad = shortFn(w.Fn) + " writes the scanner index"
 				continue
 			}
-			okV := isConstInt(w.Val, 0)
-			if b, ok := w.Val.(*ssa.BinOp); ok && b.Op == token.ADD && isConstInt(b.Y, 1) {
-				if ld, ok := b.X.(*ssa.UnOp); ok && ld.Op == token.MUL {
-					if _, f, ok := fieldOf(ld.X); ok && f == "currentScannerIdx" {
-						okV = true
+			// the values written: the stored value, or - when a helper outside the vocabulary stores
+			// its parameter - what its callers pass
+			vals := []ssa.Value{w.Val}
+			if par, isPar := w.Val.(*ssa.Parameter); isPar && c.P.IsNewHelper(w.Fn) {
+				vals = nil
+				pi := -1
+				for i, p := range w.Fn.Params {
+					if p == par {
+						pi = i
 					}
 				}
+				for _, caller := range c.P.AllLibFuncs() {
+					for _, site := range callsTo(caller, w.Fn) {
+						if args := site.Common().Args; pi >= 0 && pi < len(args) {
+							vals = append(vals, args[pi])
+						}
+					}
+				}
+				if len(vals) == 0 {
+					vals = []ssa.Value{w.Val}
+				}
+				n += len(vals) - 1
 			}
-			if !okV {
-				bad = "the scanner index is set to something other than 0 or index+1"
+			for _, v := range vals {
+				okV := isConstInt(v, 0)
+				if b, ok := v.(*ssa.BinOp); ok && b.Op == token.ADD && isConstInt(b.Y, 1) {
+					if ld, ok := b.X.(*ssa.UnOp); ok && ld.Op == token.MUL {
+						if _, f, ok := fieldOf(ld.X); ok && f == "currentScannerIdx" {
+							okV = true
+						}
+					}
+				}
+				if !okV {
+					bad = "the scanner index is set to something other than 0 or index+1"
+				}
 			}
 		}
 		for _, w := range fieldWrites(c.P, "filterlist", "RuleStorageScanner", "Scanners") {
